@@ -221,7 +221,12 @@ class _STIXBase(collections.abc.Mapping):
 
         setting_kwargs = {}
 
-        has_custom = bool(all_custom_prop_names)
+        # A custom property without a value (None or []) is not part of the
+        # object, so it does not make the object custom.
+        has_custom = any(
+            assigned_properties.get(prop_name) not in (None, [])
+            for prop_name in all_custom_prop_names
+        )
         for prop_name in property_order:
 
             prop_val = assigned_properties.get(prop_name)
